@@ -364,6 +364,81 @@ theorem extract_nil_salt (a : HashAlg) (hs : a.size ≤ a.blockSize) (secret : B
     congr 1; omega
   rw [this]
 
+
+/-! ### PBKDF2: block index and windows of long keys -/
+
+/-- **INT(i) is the 4-octet big-endian encoding of i, for every i < 2^32**: it has 4 bytes and decodes
+    back to i — in particular blocks 256, 65536, 65537, 2^24 … carry into the 2nd, 3rd and 4th octet and
+    no two block numbers below 2^32 share an index -/
+theorem blockIndex_spec (i : Nat) (h : i < 2 ^ 32) :
+    (natToBE 4 i).length = 4 ∧ natOfBE (natToBE 4 i) = i := by
+  refine ⟨by simp [natToBE, natToLE_length], ?_⟩
+  unfold natOfBE natToBE
+  rw [List.reverse_reverse, natOfLE_natToLE]
+  exact Nat.mod_eq_of_lt (by simpa using h)
+
+theorem blockIndex_injective (i j : Nat) (hi : i < 2 ^ 32) (hj : j < 2 ^ 32)
+    (h : natToBE 4 i = natToBE 4 j) : i = j := by
+  rw [← (blockIndex_spec i hi).2, ← (blockIndex_spec j hj).2, h]
+
+example : natToBE 4 255 = [0, 0, 0, 255] ∧ natToBE 4 256 = [0, 0, 1, 0] ∧ natToBE 4 65536 = [0, 1, 0, 0] ∧
+    natToBE 4 65537 = [0, 1, 0, 1] ∧ natToBE 4 16777216 = [1, 0, 0, 0] := by decide
+
+section pbkdf2win
+variable (prf : Bytes → Bytes) (size : Nat) (hsz : ∀ x, (prf x).length = size)
+include hsz
+
+/-- block decomposition of T_1 ‖ … ‖ T_J -/
+theorem pbkdf2Blocks_drop (salt : Bytes) (c J j : Nat) (h : j < J) :
+    (pbkdf2Blocks prf salt c J).drop (j * size) =
+      pbkdf2F prf salt c (j + 1) ++ (pbkdf2Blocks prf salt c J).drop ((j + 1) * size) := by
+  induction J with
+  | zero => omega
+  | succ J ih =>
+    have hl := pbkdf2Blocks_length prf size hsz salt c J
+    have hF := pbkdf2F_length prf size hsz salt c
+    simp only [pbkdf2Blocks]
+    by_cases hj : j < J
+    · have h1 : j * size ≤ J * size := Nat.mul_le_mul_right _ (by omega)
+      have h2 : (j + 1) * size ≤ J * size := Nat.mul_le_mul_right _ (by omega)
+      rw [List.drop_append_of_le_length (by omega), List.drop_append_of_le_length (by omega), ih hj,
+        List.append_assoc]
+    · have : j = J := by omega
+      subst this
+      rw [List.drop_left' hl, List.drop_eq_nil_of_le (by
+        rw [List.length_append, hl, hF, Nat.add_one_mul]; omega), List.append_nil]
+
+end pbkdf2win
+
+/-- **windows of a derived key**: bytes [(i−1)·hLen, i·hLen) of the key are the first
+    min(hLen, keyLen − (i−1)·hLen) bytes of T_i = F(P, S, c, i), for every block 1 ≤ i ≤ ⌈keyLen/hLen⌉ —
+    what the `pbw` ops compare for blocks 255/256/257 and 65535/65536/65537 -/
+theorem pbkdf2Key_window (a : HashAlg) (ha : a.WellSized) (_hs : 0 < a.size) (pw salt : Bytes) (iter : Int)
+    (keyLen i : Nat) (hk : 0 < keyLen) (hi1 : 1 ≤ i) (hi2 : i ≤ (keyLen + a.size - 1) / a.size) (key : Bytes)
+    (e : pbkdf2Key a pw salt iter keyLen = some key) :
+    (key.drop ((i - 1) * a.size)).take a.size = pbkdf2Window a pw salt iter keyLen i := by
+  unfold pbkdf2Key at e
+  have n1 : ¬ ((keyLen : Int) ≤ 0) := by omega
+  simp only [n1, ↓reduceIte, Option.some.injEq, Int.toNat_natCast] at e
+  subst e
+  have hprf : ∀ x, (hmac a pw x).length = a.size := fun x => hmac_length a ha pw x
+  have hF := pbkdf2F_length (hmac a pw) a.size hprf salt iter.toNat i
+  have hd := pbkdf2Blocks_drop (hmac a pw) a.size hprf salt iter.toNat ((keyLen + a.size - 1) / a.size) (i - 1) (by omega)
+  have hi : i - 1 + 1 = i := by omega
+  rw [hi] at hd
+  unfold pbkdf2Window
+  have hmin : min a.size (keyLen - (i - 1) * a.size) ≤ (pbkdf2F (hmac a pw) salt iter.toNat i).length := by
+    rw [hF]; exact Nat.min_le_left _ _
+  rw [List.drop_take, hd, List.take_take, List.take_append_of_le_length hmin]
+  by_cases hc : a.size ≤ keyLen - (i - 1) * a.size
+  · rw [Nat.min_eq_left hc, List.take_of_length_le (by omega), List.take_of_length_le (by omega)]
+  · rw [Nat.min_eq_right (by omega)]
+
+/-- the driver's left-to-right construction of the whole key is `pbkdf2Key` -/
+theorem pbkdf2KeyLinear_eq (a : HashAlg) (pw salt : Bytes) (iter : Int) (keyLen : Nat) (h : 0 < keyLen) :
+    pbkdf2Key a pw salt iter keyLen = some (pbkdf2KeyLinear a pw salt iter keyLen) :=
+  pbkdf2Key_blocks a pw salt iter keyLen h
+
 /-- `pbkdf2.Key` panics exactly for `keyLen ≤ 0`; otherwise it returns exactly `keyLen` bytes -/
 theorem pbkdf2Key_panic_iff (a : HashAlg) (pw salt : Bytes) (iter keyLen : Int) :
     pbkdf2Key a pw salt iter keyLen = none ↔ keyLen ≤ 0 := by
